@@ -109,12 +109,54 @@ def node_of(cfg: CFG, sub: ast.AST) -> Node | None:
     return best
 
 
+def star_kwargs_literal(call: ast.Call) -> dict[str, ast.AST] | None:
+    """Expand `**name` arguments when `name` is a local of the enclosing
+    function assigned exactly once from a dict literal with constant string
+    keys (a very common refactoring of long keyword lists). None when some
+    `**` argument cannot be expanded."""
+    stars = [k.value for k in call.keywords if k.arg is None]
+    if not stars:
+        return {}
+    from sa.model import ancestors
+    encl = next((a for a in ancestors(call) if isinstance(
+        a, (ast.FunctionDef, ast.AsyncFunctionDef))), None)
+    out: dict[str, ast.AST] = {}
+    for st in stars:
+        lit = st if isinstance(st, ast.Dict) else None
+        if lit is None and isinstance(st, ast.Name) and encl is not None:
+            defs = [n for n in ast.walk(encl) if isinstance(
+                n, (ast.Assign, ast.AnnAssign)) and any(
+                    isinstance(t, ast.Name) and t.id == st.id
+                    for t in (n.targets if isinstance(n, ast.Assign)
+                              else [n.target]))]
+            muts = [n for n in ast.walk(encl) if (isinstance(
+                n, ast.Subscript) and isinstance(n.ctx, ast.Store) and isinstance(
+                    n.value, ast.Name) and n.value.id == st.id) or (
+                        isinstance(n, ast.Call) and isinstance(
+                            n.func, ast.Attribute) and isinstance(
+                                n.func.value, ast.Name) and
+                        n.func.value.id == st.id and n.func.attr in (
+                            "update", "pop", "setdefault", "clear"))]
+            if len(defs) == 1 and not muts and isinstance(defs[0].value,
+                                                          ast.Dict):
+                lit = defs[0].value
+        if lit is None or not all(isinstance(k, ast.Constant) and isinstance(
+                k.value, str) for k in lit.keys):
+            return None
+        for k, v in zip(lit.keys, lit.values):
+            out[k.value] = v
+    return out
+
+
 def passed_expr(call: ast.Call, callee: FunctionInfo, param: str) -> ast.AST | None:
-    """Expression passed for `param` of `callee` at `call` (keyword or
-    positional), None when the argument is omitted."""
+    """Expression passed for `param` of `callee` at `call` (keyword,
+    expanded `**literal dict`, or positional), None when omitted."""
     for k in call.keywords:
         if k.arg == param:
             return k.value
+    extra = star_kwargs_literal(call)
+    if extra and param in extra:
+        return extra[param]
     a = callee.node.args
     pos = [x.arg for x in a.posonlyargs + a.args]
     if pos and pos[0] in ("self", "cls") and not callee.is_static:
@@ -128,7 +170,8 @@ def passed_expr(call: ast.Call, callee: FunctionInfo, param: str) -> ast.AST | N
 
 
 def has_star_kwargs(call: ast.Call) -> bool:
-    return any(k.arg is None for k in call.keywords)
+    """True when the call has a `**` argument that cannot be expanded."""
+    return star_kwargs_literal(call) is None
 
 
 def option_sources(ctx: Context, fn: FunctionInfo) -> tuple[State, set[str]]:
